@@ -31,7 +31,13 @@ struct Ev {
 };
 
 enum OT : uint8_t { T_U8, T_U16, T_U32, T_DOMAIN, T_STRING, T_HBPROD, T_HBCONS, T_SYNCID, T_SYNCCYCLE, T_EMCYID, T_EMCYHIST, T_SDOID,
-                    T_PDOID, T_PDOTYPE, T_PDOEVENT, T_PDONUM, T_PDOMAP, T_PARASTORE, T_PARARESTORE, T_USER };
+                    T_PDOID, T_PDOTYPE, T_PDOEVENT, T_PDONUM, T_PDOMAP, T_PARASTORE, T_PARARESTORE, T_USER, T_APP };
+// T_APP: an application-defined object type (4 bytes, own storage) whose Read / Write functions call back into the stack. 'aux' = behaviour bits:
+//   1 nested read: Read and Write first read the sibling entry (same index, sub-index + 1) through CODictRdByte and fail if that read fails
+//   2 mode switch: Write stores the value, then calls CONmtSetMode(STOP) (a 'shut down' command object)
+//   4 service lock: Write stores the value, then invalidates the first SDO server's request COB-ID 1200h:1 through CODictWrLong
+enum { APP_NESTED_READ = 1, APP_MODE_STOP = 2, APP_LOCK_SDO = 4 };
+struct AppObj { uint8_t val[4]; int beh; };
 struct ParaSpec { uint32_t offset = 0, size = 0; int type = CO_RESET_NODE; uint32_t value = CO_PARA___E; };
 struct ObjSpec {
     uint16_t idx = 0; uint8_t sub = 0; uint8_t flags = 0; OT type = T_U8;
@@ -156,6 +162,7 @@ void add_mandatory(std::vector<ObjSpec> &v, int nSsdo);   // 1000, 1001, 1018, 1
 void add_rpdo(std::vector<ObjSpec> &v, int num, uint32_t cobid, uint8_t type, const std::vector<uint32_t> &maps, bool writable = true);
 void add_tpdo(std::vector<ObjSpec> &v, int num, uint32_t cobid, uint8_t type, uint16_t inhibit, uint16_t evtime, const std::vector<uint32_t> &maps, bool writable = true);
 
-extern "C" const CO_OBJ_TYPE COTVerifUser;   // user type: read/write fail with the application abort code in spec.val
+extern "C" const CO_OBJ_TYPE COTVerifUser;
+extern "C" const CO_OBJ_TYPE COTVerifApp;   // user type: read/write fail with the application abort code in spec.val
 
 } // namespace sim
